@@ -126,6 +126,8 @@ Fixpoint wrapped (sb eb : N) (kids : list (node * yden)) : option yval :=
   | (_, YDTok) :: t => wrapped sb eb t
   | _ => None
   end.
+Definition pairs_kind (k : bytes) (kids : list (node * yden)) : bool :=
+  forallb (fun kd => match snd kd with YDPair _ _ => kind_is k (fst kd) | _ => true end) kids.
 Definition denote_ystep (content kind : bytes) (sb eb : N) (missing : bool) (kids : list (node * yden)) : yden :=
   if missing then YDBad
   else if ytokish kind then
@@ -149,8 +151,10 @@ Definition denote_ystep (content kind : bytes) (sb eb : N) (missing : bool) (kid
     (* exactly one child carries the value (anchors, tags and block scalars are outside this reading) *)
     match wrapped sb eb kids with Some v => YDVal v | None => YDBad end
   else if beq kind yk_block_mapping || beq kind yk_flow_mapping then
+    (* the members of a block mapping are block pairs, those of a flow mapping flow pairs *)
     match ypairs_of kids with
-    | Some l => if ykeys_nodup (map fst l) then YDVal (YMap (beq kind yk_flow_mapping) l) else YDBad
+    | Some l => if ykeys_nodup (map fst l) && pairs_kind (if beq kind yk_flow_mapping then yk_flow_pair else yk_block_mapping_pair) kids
+                then YDVal (YMap (beq kind yk_flow_mapping) l) else YDBad
     | None => YDBad
     end
   else if beq kind yk_block_mapping_pair || beq kind yk_flow_pair then ypair_of kids
